@@ -14,7 +14,7 @@ use crate::prng::{fnv, Rng};
 use crate::run::{clear_case, finish, par_shards, set_case, start_watchdog, Ctx, Meta, Report};
 
 pub const COND_SYMS: &[&str] = &["A", "B", "and ", "or ", "not ", "(", ")", ",", "==", "<", ">=", "-", ".", "1", " ", "é", "all(", "of(", "int(", "str(", "not("];
-pub const PAT_SYMS: &[&str] = &["a", "i", "*", "?", "\"", "'", ">", "<", "=", ".", "1", "-", "é", "(", "[", "\\"];
+pub const PAT_SYMS: &[&str] = &["a", "i", "*", "?", "\"", "'", ">", "<", "=", ".", "1", "-", "é", "(", "[", "\\", "\u{201c}", "\u{201d}", "\u{2018}"];
 /// regular-expression syntax: what a `?` pattern hands to the regex compiler, alone and (for lists)
 /// again as a member of a regex set
 pub const REGEX_SYMS: &[&str] = &["a", "\\", "0", "1", "{", "}", "(", ")", "[", "]", "|", "*", "+", "?", ".", "^", "$", "w", "x", ","];
@@ -213,7 +213,7 @@ pub fn random_string(rng: &mut Rng, pool: &[&str], max_syms: usize) -> String {
         if rng.chance(15) {
             s.push_str(rng.pick_str(HOSTILE_STRS));
         } else if rng.chance(8) {
-            s.push(*rng.pick(&['é', '日', 'İ', '\u{307}', '\u{a0}', '\u{2028}', '\t', '\n', '\u{b}', '٣', '½', '\u{1f600}']));
+            s.push(*rng.pick(&['é', '日', 'İ', '\u{307}', '\u{a0}', '\u{2028}', '\t', '\n', '\u{b}', '٣', '½', '\u{1f600}', '\u{201c}', '\u{201d}', '\u{2018}', '\u{2019}', '\u{ab}', '\u{bb}', '\u{ff02}', '\u{2033}', '０', '²']));
         } else {
             s.push_str(rng.pick_str(pool));
         }
@@ -531,7 +531,7 @@ pub fn child(ctx: &Ctx) -> i32 {
         ctx,
         rep,
         Meta {
-            rule: format!("complete enumeration of every sequence of <= {} symbols over layer-specific alphabets (condition: {} symbols incl. keywords with their delimiters, a multi-byte letter, lone '-', '.'; pattern: {} symbols; mapping key: {} symbols; regular expression after `?`: 20 symbols, one symbol shorter, each text loaded alone, i-prefixed and as a member of five kinds of list), each fed to the layer directly (tokenise / into_identifier / parse_identifier, feature core) and through a full rule load; a fixed list of {} degenerate strings; random longer strings with multi-byte and exotic whitespace characters; rule-shaped YAML values with arbitrary YAML kinds in every position (through from_value and from_str); byte-level mutations of the repository's rule files; regexes of 20..3000 repetitions of a class, alone and in lists of 2, 3, 8 (the list is compiled again as one set). Oracle: panic monitor (catch_unwind + panic hook) and a watchdog for hangs, in a child process. non-trivial = input that reached the engine's own layer, distinct by (layer, outcome class, input)", maxlen, COND_SYMS.len(), PAT_SYMS.len(), KEY_SYMS.len(), HOSTILE_STRS.len()),
+            rule: format!("complete enumeration of every sequence of <= {} symbols over layer-specific alphabets (condition: {} symbols incl. keywords with their delimiters, a multi-byte letter, lone '-', '.'; pattern: {} symbols incl. typographic quotes; mapping key: {} symbols; regular expression after `?`: 20 symbols, one symbol shorter, each text loaded alone, i-prefixed and as a member of five kinds of list), each fed to the layer directly (tokenise / into_identifier / parse_identifier, feature core) and through a full rule load; a fixed list of {} degenerate strings; random longer strings with multi-byte and exotic whitespace characters; rule-shaped YAML values with arbitrary YAML kinds in every position (through from_value and from_str); byte-level mutations of the repository's rule files; regexes of 20..3000 repetitions of a class, alone and in lists of 2, 3, 8 (the list is compiled again as one set). Oracle: panic monitor (catch_unwind + panic hook) and a watchdog for hangs, in a child process. non-trivial = input that reached the engine's own layer, distinct by (layer, outcome class, input)", maxlen, COND_SYMS.len(), PAT_SYMS.len(), KEY_SYMS.len(), HOSTILE_STRS.len()),
             exhaustive: true,
             assumptions: vec!["nesting depth bounded (<= 8 here), native stack exhaustion out of scope as the property says".into(), "a hang is reported only after the same input also exceeds 120 s alone in a fresh process".into()],
             min_nontrivial: 1000,
